@@ -703,6 +703,20 @@ class Super:
         P = self.P
         expanded = False
         too_deep = ctx.depth >= self.MAX_DEPTH
+        if ci["k"] == "call" and ci.get("kind") == "indirect":
+            # a call through a fn pointer whose value is, in this context, a known function item of the crate (e.g. a guard that
+            # stores the setter to call on drop): the same as calling that function
+            op = ci["term"]["callee"].get("op")
+            v = strip(self.resolve_op(ctx, op)) if op else None
+            if isinstance(v, tuple) and v and v[0] == "fnitem":
+                try:
+                    tf = P.F.fn(v[1])
+                except KeyError:
+                    tf = None
+                if tf is not None:
+                    ci = dict(ci)
+                    ci.update(kind="crate", npath=tf.npath, targets=[tf], resolved_indirect=True)
+                    n.ci = ci
         if ci["k"] == "call":
             kind = ci["kind"]
             targets = ci.get("targets", [])
@@ -1055,6 +1069,36 @@ class Super:
             return None
         v = self.resolve_rv(sub, rv, None)
         return None if _mentions(v, ("phi", "undef")) else v
+
+    def expand_rets(self, e, depth=0):
+        """e with every ('ret', helper, ..) of an expanded single-result helper replaced by that result (see expanded_result)."""
+        if not isinstance(e, tuple) or depth > 12:
+            return e
+        if e and e[0] == "ret":
+            v = self.expanded_result(e)
+            if v is not None:
+                return self.expand_rets(v, depth + 1)
+        return tuple(self.expand_rets(x, depth + 1) if isinstance(x, tuple) else x for x in e)
+
+    def expanded_result(self, e):
+        """For rules: the value of ('ret', helper, args, site) when the helper was expanded at that site and assigns its result in
+        exactly one place (a statement or a call): what the helper hands back, in the caller's terms. None otherwise."""
+        e = strip(e)
+        if not (isinstance(e, tuple) and len(e) > 3 and e[0] == "ret" and isinstance(e[3], str)):
+            return None
+        for c in self.ctxs:
+            n = c.call_node
+            if n is None or c.via not in ("call", "virtual") or n.term["k"] != "call":
+                continue
+            if "%s:bb%d" % (n.ctx.fn.npath, n.bb) != e[3]:
+                continue
+            defs = self._defs(c.fn).get(0, [])
+            if len(defs) != 1 or 0 in c.fn._partial:
+                return None
+            d = defs[0]
+            v = self.resolve_rv(c, c.fn.blocks[d[1]]["stmts"][d[2]]["rv"], None) if d[0] == "stmt" else self.resolve_call_value(c, d[1])
+            return None if _mentions(v, ("phi", "undef")) else v
+        return None
 
     # ---- events ---------------------------------------------------------------------------
     def call_nodes(self, pred=None):
